@@ -317,10 +317,58 @@ def r15_5(ctx, rc):
                   key=key)
 
 
+def r15_6(ctx, rc):
+    """The cache reader can return normally only after it established that
+    the file decodes with the writer's codec, is a dict carrying this
+    software's tag, and has the current format version."""
+    from .c16 import r16_3
+    r16_3(ctx, rc)
+    C = ctx.R.cache
+    Rd = ctx.E.func(C + '.read_immutable')
+    sg = ctx.E.super(Rd, lambda g: False)
+
+    def mentions(e, text):
+        return text in ast.unparse(e)
+
+    def fact(lab, pred):
+        return isinstance(lab, tuple) and len(lab) == 4 and pred(lab)
+    checks = [
+        ('the parsed value is a dict',
+         lambda lab: lab[0] == 'T' and isinstance(lab[1], ast.Call) and
+         isinstance(lab[1].func, ast.Name) and
+         lab[1].func.id == 'isinstance' and mentions(lab[1], 'dict')),
+        ('the software tag equals this package\'s',
+         lambda lab: isinstance(lab[1], ast.Compare) and
+         mentions(lab[1], "'software'") and mentions(lab[1], '_SOFTWARE')
+         and ((isinstance(lab[1].ops[0], ast.NotEq) and lab[0] == 'F') or
+              (isinstance(lab[1].ops[0], ast.Eq) and lab[0] == 'T'))),
+        ('the format version equals the current one',
+         lambda lab: lab[0] == 'T' and isinstance(lab[1], ast.Call) and
+         mentions(lab[1], 'cacheFileVersion') and
+         mentions(lab[1], '_CACHE_FILE_VERSION')),
+    ]
+    ends = set(sg.normal_exits())
+    for what, pred in checks:
+        seen = sg.reach([sg.entry], edge_ok=lambda a, b, lab, pred=pred:
+                        not fact(lab, pred))
+        hit = [e for e in ends if e in seen]
+        key = 'reader accepts only if ' + what
+        if hit:
+            rc.violation(
+                'reader-accepts | ' + what,
+                'the cache reader can accept a file without having '
+                'established that %s (a foreign or damaged file is then '
+                'used, overwritten or cleaned from)' % what, Rd.file,
+                sg.describe_path(sg.witness(seen, hit[0])), key=key)
+        else:
+            rc.ok({'reader_requires': what}, key=key)
+
+
 RULES = [
     ('R15.1', 'no mutating effect can precede a refusal point', r15_1),
     ('R15.2', 'refusal callees are read-only', r15_2),
     ('R15.3', 'temporary directory acquisition is paired', r15_3),
     ('R15.4', 'every validation check precedes every effect', r15_4),
     ('R15.5', 'no effect unless the build name was compared', r15_5),
+    ('R15.6', 'the reader accepts only files it can vouch for', r15_6),
 ]
